@@ -479,7 +479,13 @@ func c03Oracle(c *ctx, desc map[string]any, typed pipeline.Steps, inSteps, outSt
 			}
 			continue
 		default:
+			// wait / input / trigger: the step IS its mapping — nothing is added either (say, from another step)
 			modelled = map[string]bool{}
+			for _, kv := range om {
+				if _, ok := findKV(im, kv.K); !ok {
+					c.res.Fail(core.OracleFailure{What: fmt.Sprintf("step %d gained the key %q, which its input mapping does not have", i+1, kv.K), Input: desc, Got: vl.Enc(om), Want: vl.Enc(jsonViewGo(im))})
+				}
+			}
 		}
 		seen := map[string]int{}
 		for _, kv := range om {
@@ -627,6 +633,10 @@ func runParse(c *ctx, prop string) error {
 		if prop == "C13" && perr == nil && countUnknown(p.Steps) > 0 {
 			c.res.Fail(core.OracleFailure{What: "a step fell back to an unknown step but no warning was reported", Input: desc})
 		}
+		if nu := countUnknownDeep(p.Steps); prop == "C13" && len(warns) < nu {
+			// every fallback, at any depth, is reported: fewer warnings than unknown steps means one went unreported
+			c.res.Fail(core.OracleFailure{What: "fewer warnings than steps that fell back to unknown steps (counted at every depth)", Input: desc, Got: fmt.Sprint(len(warns)), Want: fmt.Sprint(nu)})
+		}
 		if p.Steps == nil {
 			c.res.Fail(core.OracleFailure{What: "usable result with nil step list", Input: desc})
 		}
@@ -691,6 +701,22 @@ func runParse(c *ctx, prop string) error {
 			}
 			outSteps, _ := findKV(dump.Any(jtree).(vl.OMap), "steps")
 			c03Oracle(c, desc, p.Steps, inSteps, outSteps)
+			// top-level keys the library does not model are kept, same value, whatever else the document holds
+			// (warnings from steps included)
+			if m, ok := treeV.(vl.OMap); ok {
+				om := dump.Any(jtree).(vl.OMap)
+				for _, kv := range m {
+					if kv.K == "steps" || kv.K == "env" {
+						continue
+					}
+					ov, ok := findKV(om, kv.K)
+					if !ok {
+						c.res.Fail(core.OracleFailure{What: fmt.Sprintf("top-level key %q is dropped by parse+marshal", kv.K), Input: desc})
+					} else if want := vl.Enc(jsonViewGo(kv.V)); vl.Enc(ov) != want {
+						c.res.Fail(core.OracleFailure{What: fmt.Sprintf("value of top-level key %q is changed by parse+marshal", kv.K), Input: desc, Got: vl.Enc(ov), Want: want})
+					}
+				}
+			}
 		}
 		// ---------- C09 ----------
 		if prop != "C09" {
@@ -1138,6 +1164,19 @@ func countUnknown(ss pipeline.Steps) int {
 	for _, s := range ss {
 		if _, ok := s.(*pipeline.UnknownStep); ok {
 			n++
+		}
+	}
+	return n
+}
+
+func countUnknownDeep(ss pipeline.Steps) int {
+	n := 0
+	for _, s := range ss {
+		switch t := s.(type) {
+		case *pipeline.UnknownStep:
+			n++
+		case *pipeline.GroupStep:
+			n += countUnknownDeep(t.Steps)
 		}
 	}
 	return n
